@@ -150,6 +150,13 @@ structure MethodIR where
   trackCaller : Bool
   deriving Repr, DecidableEq
 
+/-- the receiver expression handed to the registered real function: `self`, or — where `self` has been moved into the surrogate
+    (`&mut self`, `Pin<&mut Self>`) — the surrogate, re-pinned for `Pin` -/
+def unmockSelf : Recv → String
+  | .mutRef => "__self"
+  | .pinMut => "::core::pin::Pin::new(__self)"
+  | _ => "self"
+
 def genMethod (s : MethodShape) : MethodIR :=
   let pol := isPolonius s.recv
   { surrogate := match s.recv with
@@ -167,11 +174,11 @@ def genMethod (s : MethodShape) : MethodIR :=
     answerSelf := answerSelf s.recv
     answerArgs := s.params.map fnParam
     unmock :=
-      if pol then none      -- the `&mut self` / `Pin<&mut Self>` form has no Unmock arm (see C16)
-      else match s.unmock with
+      match s.unmock with
         | .none => none
-        | .path p => some (p, "self" :: s.params.map fnParam, dotAwait s)
-        | .listed p args => some (p, args, dotAwait s)
+        | .path p => some (p, unmockSelf s.recv :: s.params.map fnParam, dotAwait s)
+        -- in the listed form the user's `self` names the surrogate once `self` has been moved into it
+        | .listed p args => some (p, args.map (fun a => if a = "self" then unmockSelf s.recv else a), dotAwait s)
     delegate := if s.hasDefault then some (delegateCtor s.recv, s.params.map fnParam, dotAwait s) else none
     reportSelf := selfRef s.recv
     asyncWrap := s.rpit
@@ -297,6 +304,9 @@ def renderMethod (s : MethodShape) : List String :=
     [s!"  rebind (__cont,{tupled (ir.rebind.getD [])})", "  polonius self=__self", evalLine, "  arm return pat=",
      "  polonius-return output", s!"  arm any pat=__cont,{tupled (ir.exitPat.getD [])}",
      s!"  exit (__cont,{tupled (ir.exitArgs.getD [])})", "  arm Answer pat=", ans] ++ del "" ++
+    (match ir.unmock with
+      | some (p, a, w) => ["  arm Unmock pat=", s!"  call unmock path={p} args={",".intercalate a} await={b2s w}"]
+      | none => []) ++
     ["  arm any pat=", s!"  call report recv=cont self={ir.reportSelf}"]
   else
     [hdr, evalLine, "  arm return pat=", s!"  arm Answer pat={tupled ir.armPat}", ans] ++
